@@ -92,6 +92,7 @@ harness!(st_insert__s8_e, st_insert, S8_E);
 harness!(st_insert__s4f_e, st_insert, S4F_E);
 harness!(st_insert__s16_8, st_insert, S16_8);
 harness!(st_insert__s8m0_4a, st_insert, S8M0_4A);
+harness!(st_insert__s8t_4a, st_insert, S8T_4A);
 
 // ------------------------------------------------------------------------------ remove
 fn st_remove(sh: Shape) {
